@@ -4,10 +4,12 @@ import Infretis.Model.TemplateCp2k
 import Infretis.Model.Codec
 import Infretis.Model.CodecLmp
 import Infretis.Model.CodecBox
+import Infretis.Model.CodecBoxData
 open Infretis.Proto
 
 /-- dispatch over the part models of C19 (each answers `none` for ops that are not its own):
-    `mdp…`/`wfr…` Template, `cp2k…` TemplateCp2k, `g96…`/`xyz…` Codec, `lmp…`/`trr…` CodecLmp, `box…` CodecBox -/
+    `mdp…`/`wfr…` Template, `cp2k…` TemplateCp2k, `g96…`/`xyz…` Codec, `lmp…`/`trr…` CodecLmp, `boxlist/boxabc/boxmat` CodecBox,
+    `boxdata`/`cp2kbox` CodecBoxData -/
 def handle (toks : List String) : String :=
   match Infretis.Template.handle toks with
   | some r => r
@@ -22,6 +24,9 @@ def handle (toks : List String) : String :=
   | some r => r
   | none =>
   match Infretis.Box.handle toks with
+  | some r => r
+  | none =>
+  match Infretis.BoxData.handle toks with
   | some r => r
   | none => "bad-op"
 
